@@ -76,8 +76,18 @@ func Keys(scheme string, n int) []hotstuff.PrivateKey {
 	return ks[:n]
 }
 
+// Capture, when set, receives the debug log of every logger created afterwards (diagnosis of a failing case: the property
+// function re-runs the case once with Capture set and appends the log to its report).
+var Capture io.Writer
+
 // Logger returns a silent logger.
 func Logger(tag string) logging.Logger {
+	if Capture != nil {
+		logging.SetLogLevel("debug")
+		l := logging.NewWithDest(Capture, tag)
+		logging.SetLogLevel("info")
+		return l
+	}
 	if os.Getenv("VERIF_LOG") != "" {
 		logging.SetLogLevel(os.Getenv("VERIF_LOG"))
 		return logging.NewWithDest(os.Stderr, tag)
